@@ -9,8 +9,9 @@ use identity_credential::validator::{JwtPresentationValidationOptions, JwtPresen
 use identity_document::document::CoreDocument;
 use serde_json::{json, Map, Value};
 
-fn iss_str(v: i64) -> String { match v { 1 | 2 | 5 => DIDS[v as usize].to_string(), 3 => "https://holder.example/".to_string(), 1001 => DIDS[1].replace("issuer", "ISSUER"), _ => format!("did:example:nobody{v}") } }
-fn iss_did(v: i64) -> Option<i64> { match v { 1 | 2 => Some(v), 3 => None, _ => Some(90 + v) } }
+fn iss_str(v: i64) -> String { match v { 1 | 2 | 5 => DIDS[v as usize].to_string(), 6 => format!("{}#f1", DIDS[1]), 7 => format!("{}/p?q=1", DIDS[1]),   // DID URLs built on the holder DID are not DIDs
+  3 => "https://holder.example/".to_string(), 1001 => DIDS[1].replace("issuer", "ISSUER"), _ => format!("did:example:nobody{v}") } }
+fn iss_did(v: i64) -> Option<i64> { match v { 1 | 2 => Some(v), 3 | 6 | 7 => None, _ => Some(90 + v) } }
 #[derive(Clone, Debug)]
 struct PC { exp: Option<i64>, iss: i64, iat: Option<i64>, nbf: Option<i64>, jti: Option<i64>, aud: Option<i64>, p: P, vp_id: Option<i64>, vp_holder: Option<i64> }
 #[derive(Clone, Debug)]
@@ -130,7 +131,8 @@ fn mutations() -> Vec<(&'static str, Vec<fn(&mut Case)>)> {
   vec![
     ("nonce", vec![|c| { c.nonce = Some(1); c.o_nonce = Some(1); }, |c| { c.nonce = Some(1); c.o_nonce = Some(2); }, |c| c.nonce = Some(1), |c| c.o_nonce = Some(1),
       // "n1" is a proper prefix of "n10" and of "n12": a nonce must be compared as a whole
-      |c| { c.nonce = Some(1); c.o_nonce = Some(10); }, |c| { c.nonce = Some(12); c.o_nonce = Some(1); }]),
+      |c| { c.nonce = Some(1); c.o_nonce = Some(10); }, |c| { c.nonce = Some(12); c.o_nonce = Some(1); },
+      |c| c.nonce = Some(0), |c| c.o_nonce = Some(0), |c| { c.nonce = Some(0); c.o_nonce = Some(0); }, |c| { c.nonce = Some(0); c.o_nonce = Some(1); }]),
     ("kid", vec![|c| { c.kid = Some((0, Some(1), Some(11))); c.sigkey = 17; }, |c| { c.kid = Some((0, Some(1), Some(12))); c.sigkey = 18; }, |c| { c.kid = Some((0, None, Some(12))); c.sigkey = 18; }, |c| c.kid = None, |c| c.kid = Some((0, None, Some(0))), |c| c.kid = Some((1, None, Some(0))), |c| c.kid = Some((2, None, Some(0))), |c| c.kid = Some((1, Some(1), Some(0))), |c| c.kid = Some((0, Some(1), None)), |c| c.kid = Some((0, None, None)), |c| c.kid = Some((1, None, None)),
       |c| c.kid = Some((0, Some(2), Some(0))), |c| c.kid = Some((0, Some(1), Some(5))), |c| { c.kid = Some((0, Some(1), Some(1))); c.sigkey = 11; }, |c| c.kid = Some((0, Some(1), Some(2))), |c| { c.kid = Some((0, None, Some(3))); c.sigkey = 13; },
       |c| { c.kid = Some((0, None, Some(4))); c.sigkey = 14; }, |c| { c.kid = Some((0, Some(2), Some(4))); c.sigkey = 14; }, |c| { c.kid = Some((0, Some(1), Some(4))); c.sigkey = 14; }, |c| c.kid = Some((0, Some(1), Some(6))), |c| { c.kid = Some((0, Some(2), Some(1))); c.sigkey = 21; }, |c| { c.kid = Some((0, None, Some(1))); c.sigkey = 21; }, |c| { c.kid = Some((0, None, Some(1))); c.sigkey = 11; }]),
@@ -138,7 +140,7 @@ fn mutations() -> Vec<(&'static str, Vec<fn(&mut Case)>)> {
     ("scope", vec![|c| c.scope = 0, |c| c.scope = 1, |c| c.scope = 2, |c| c.scope = 3, |c| c.scope = 4, |c| c.scope = 5]),
     ("signature", vec![|c| c.sigkey = 11, |c| c.sigkey = 99]),
     ("claims", vec![|c| c.claims_ok = false, |c| { c.claims_ok = false; c.bad = 1; }, |c| { c.claims_ok = false; c.bad = 2; }, |c| { c.claims_ok = false; c.bad = 3; }]),
-    ("iss", vec![|c| c.pc.iss = 2, |c| c.pc.iss = 3, |c| c.pc.iss = 4, |c| c.pc.iss = 5]),
+    ("iss", vec![|c| c.pc.iss = 2, |c| c.pc.iss = 3, |c| c.pc.iss = 4, |c| c.pc.iss = 5, |c| c.pc.iss = 6, |c| c.pc.iss = 7]),
     ("exp", vec![|c| c.pc.exp = None, |c| c.pc.exp = Some(3999), |c| c.pc.exp = Some(4000), |c| c.pc.exp = Some(4001), |c| c.pc.exp = Some(TS_MAX), |c| c.pc.exp = Some(TS_MAX + 1), |c| c.pc.exp = Some(TS_MIN - 1)]),
     ("issuance", vec![|c| c.pc.nbf = None, |c| c.pc.nbf = Some(1999), |c| c.pc.nbf = Some(2000), |c| c.pc.nbf = Some(2001), |c| { c.pc.nbf = None; c.pc.iat = Some(2000); }, |c| { c.pc.nbf = None; c.pc.iat = Some(2001); }, |c| c.pc.iat = Some(2001), |c| { c.pc.nbf = Some(2001); c.pc.iat = Some(5); },
       |c| c.pc.nbf = Some(TS_MIN), |c| c.pc.nbf = Some(TS_MIN - 1), |c| c.pc.nbf = Some(TS_MAX + 1), |c| { c.pc.nbf = None; c.pc.iat = Some(TS_MIN - 1); }, |c| c.pc.iat = Some(TS_MAX + 1)]),
